@@ -109,6 +109,29 @@ func checkC18(c *Ctx) {
 				built = in
 			}
 		})
+		var builder *ssa.Function
+		if built == nil {
+			// or built by a private helper of the package that returns it: the call is the point of construction
+			eachInstr(gen, func(in ssa.Instruction) {
+				call, ok := in.(*ssa.Call)
+				if !ok || call.Call.StaticCallee() == nil || !strings.HasSuffix(call.Type().String(), "twins.Scenario") {
+					return
+				}
+				cal := call.Call.StaticCallee()
+				if cal.Blocks == nil || funcPkgPath(cal) != funcPkgPath(gen) {
+					return
+				}
+				makes := false
+				eachInstr(cal, func(x ssa.Instruction) {
+					if ms, ok := x.(*ssa.MakeSlice); ok && strings.HasSuffix(ms.Type().String(), "twins.Scenario") {
+						makes = true
+					}
+				})
+				if makes {
+					built, builder = in, cal
+				}
+			})
+		}
 		if built == nil {
 			c.Undecided("C18.2", "NextScenario", p.FuncPos(gen), "construction of the scenario (make(Scenario, ...)) not found")
 		} else {
@@ -132,7 +155,9 @@ func checkC18(c *Ctx) {
 			okRet := false
 			for _, r := range returnsOf(gen) {
 				if len(r.Results) == 2 {
-					for _, lf := range leaves(fl, retValue(r, 0), r) {
+					var lvs []Leaf
+					withLeafStops(func() { lvs = leaves(fl, retValue(r, 0), r) }, builder)
+					for _, lf := range lvs {
 						if lf.Val == built.(ssa.Value) {
 							okRet = true
 						}
